@@ -49,7 +49,9 @@ var (
 	Classes = []string{"ka", "kb", "kc", "Ka", "k-a", "1a", "-", "é"}
 	IDs     = []string{"ia", "ib", "ic", "1b"}
 	AttrKs  = []string{"title", "lang", "data-x", "class", "id"}
-	AttrVs  = []string{"", "en", "en-US", "EN", "fr", "ab", "b", "a b", "ab cd", " ", "a-b", "ka", "ka kb", "\u212a", "k", "x", "en-", "x\"y", "a\\b", "it's", "\u00a0"}
+	AttrVs  = []string{"", "en", "en-US", "EN", "fr", "ab", "b", "a b", "ab cd", " ", "a-b", "ka", "ka kb", "\u212a", "k", "x", "en-", "x\"y", "a\\b", "it's", "\u00a0",
+		// pairs of ASCII characters that are 0x20 apart without being the two cases of a letter
+		"[x]", "{x}", "a^b", "a~b", "EN@", "en`", "a_b", "a\x7fb", "@", "`"}
 )
 
 func genSimple(t *rapid.T, depth int) Simple {
